@@ -44,6 +44,8 @@ class FakeSock:
         a = self._next()
         if isinstance(a, BaseException):
             raise a
+        if len(a) > n:
+            self.script.insert(0, a[n:])       # a stream socket keeps what the caller's buffer did not take
         return a[:n]
 
     def do_handshake(self):
